@@ -96,10 +96,10 @@ def clear_caches():
     n = 0
     for o in gc.get_objects():
         try:
-            if isinstance(o, functools._lru_cache_wrapper) and getattr(o, "__module__", "") is not None:
+            if isinstance(o, functools._lru_cache_wrapper):
                 w = getattr(o, "__wrapped__", None)
-                mod = getattr(w, "__module__", None) or getattr(getattr(w, "func", None), "__module__", "")
-                if mod and mod.startswith("einx"):
+                mods = [getattr(w, "__module__", None), getattr(getattr(w, "func", None), "__module__", None)]
+                if any(isinstance(m, str) and m.startswith("einx") for m in mods):
                     o.cache_clear()
                     n += 1
         except Exception:
